@@ -7,6 +7,13 @@ import sys
 
 def main():
     prop_id, inp, outp = sys.argv[1:4]
+    try:  # a runaway case must fail with MemoryError inside this process instead of exhausting the machine
+        import resource
+
+        lim = int(os.environ.get("VERIF_RUNNER_MEM", str(6 << 30)))
+        resource.setrlimit(resource.RLIMIT_AS, (lim, lim))
+    except Exception:  # pylint: disable=broad-except
+        pass
     import pydsdl  # noqa
 
     repo = os.environ.get("VERIF_REPO", "/repo")
